@@ -40,6 +40,44 @@ type Node struct {
 	Err   int     `json:"err,omitempty"` // raw: error id (0 = none)
 	Kids  []*Node `json:"kids,omitempty"`
 	Ops   []Op    `json:"ops,omitempty"`
+	// if: Cond "b" = boolean oracle ID, "c" = switch tag oracle ID selects Case; Kids = then, Else = else.
+	// for: oracle ID gives the number of iterations; Kids = body.
+	Cond string  `json:"cond,omitempty"`
+	Case int     `json:"case,omitempty"`
+	Else []*Node `json:"else,omitempty"`
+}
+
+// Env maps Key(path, id) to what the oracle with that id answers inside the loop iterations path (innermost first).
+type Env map[string]Val
+
+// Key is the environment key of oracle id asked within the enclosing loop iterations path (innermost first).
+func Key(path []int, id int) string {
+	var sb []byte
+	for _, k := range path {
+		sb = strconv.AppendInt(sb, int64(k), 10)
+		sb = append(sb, '.')
+	}
+	sb = append(sb, ':')
+	return string(strconv.AppendInt(sb, int64(id), 10))
+}
+
+func (e Env) str(path []int, id int) (string, error) {
+	x := e[Key(path, id)]
+	if x.Err != 0 {
+		return string(x.S), &ExprErr{ID: x.Err}
+	}
+	return string(x.S), nil
+}
+func (e Env) truth(path []int, id int) bool { return string(e[Key(path, id)].S) == "1" }
+func (e Env) num(path []int, id int) int {
+	n, _ := strconv.Atoi(string(e[Key(path, id)].S))
+	return n
+}
+func (e Env) test(path []int, n *Node) bool {
+	if n.Cond == "c" {
+		return e.num(path, n.ID) == n.Case
+	}
+	return e.truth(path, n.ID)
 }
 
 type Val struct {
@@ -59,7 +97,7 @@ type Job struct {
 	Tag    string        `json:"tag"`
 	Probe  string        `json:"probe,omitempty"` // name of a compiled probe template; otherwise Prog is built by hand
 	Prog   *Node         `json:"prog,omitempty"`
-	Env    map[int]Val   `json:"env,omitempty"`
+	Env    Env           `json:"env,omitempty"`
 	Comps  map[int]*Node `json:"comps,omitempty"` // hand-built components the probe receives through v.C(i)
 	Cancel int           `json:"cancel,omitempty"`
 	HTML   bool          `json:"html,omitempty"`
@@ -242,18 +280,29 @@ func newSink(spec SinkSpec) (io.Writer, *base) {
 
 // V is what a probe template receives: the environment of one job.
 type V struct {
-	env   map[int]Val
+	env   Env
+	path  []int
 	comps map[int]templ.Component
 	once  map[int]*templ.OnceHandle
 }
 
 // S is a Go expression returning (string, error).
-func (v V) S(i int) (string, error) {
-	x := v.env[i]
-	if x.Err != 0 {
-		return string(x.S), &ExprErr{ID: x.Err}
+func (v V) S(i int) (string, error) { return v.env.str(v.path, i) }
+
+// B is a Go boolean expression.
+func (v V) B(i int) bool { return v.env.truth(v.path, i) }
+
+// W is a switch tag: the index of the case it selects.
+func (v V) W(i int) int { return v.env.num(v.path, i) }
+
+// L is a slice to range over; element k sees the environment of iteration k.
+func (v V) L(i int) []V {
+	n := v.env.num(v.path, i)
+	out := make([]V, n)
+	for k := range out {
+		out[k] = V{env: v.env, path: append([]int{k}, v.path...), comps: v.comps, once: v.once}
 	}
-	return string(x.S), nil
+	return out
 }
 
 // C is a component handed in from outside the template.
@@ -304,7 +353,7 @@ func handTempl(guard bool, body []stmt) templ.Component {
 	})
 }
 
-func buildBody(kids []*Node, env map[int]Val) []stmt {
+func buildBody(kids []*Node, env Env, path []int) []stmt {
 	var body []stmt
 	for i, k := range kids {
 		k := k
@@ -317,24 +366,42 @@ func buildBody(kids []*Node, env map[int]Val) []stmt {
 			})
 		case "expr":
 			body = append(body, func(ctx context.Context, buf *templruntime.Buffer) error {
-				x := env[k.ID]
-				f := func() (string, error) {
-					if x.Err != 0 {
-						return string(x.S), &ExprErr{ID: x.Err}
-					}
-					return string(x.S), nil
-				}
-				v, err := templ.JoinStringErrs(f())
+				v, err := templ.JoinStringErrs(env.str(path, k.ID))
 				if err != nil {
 					return templ.Error{Err: err, FileName: k.File, Line: k.Line, Col: k.Col}
 				}
 				_, err = buf.WriteString(templ.EscapeString(v))
 				return err
 			})
+		case "if":
+			body = append(body, func(ctx context.Context, buf *templruntime.Buffer) error {
+				branch := k.Else
+				if env.test(path, k) {
+					branch = k.Kids
+				}
+				for _, st := range buildBody(branch, env, path) {
+					if err := st(ctx, buf); err != nil {
+						return err
+					}
+				}
+				return nil
+			})
+		case "for":
+			body = append(body, func(ctx context.Context, buf *templruntime.Buffer) error {
+				n := env.num(path, k.ID)
+				for it := 0; it < n; it++ {
+					for _, st := range buildBody(k.Kids, env, append([]int{it}, path...)) {
+						if err := st(ctx, buf); err != nil {
+							return err
+						}
+					}
+				}
+				return nil
+			})
 		default:
-			c := Build(k, env)
+			c := Build(k, env, path)
 			if k.K == "flush" && len(k.Kids) > 0 {
-				block := handTempl(false, buildBody(k.Kids, env))
+				block := handTempl(false, buildBody(k.Kids, env, path))
 				body = append(body, func(ctx context.Context, buf *templruntime.Buffer) error {
 					if err := templ.Flush().Render(templ.WithChildren(ctx, block), buf); err != nil {
 						return err
@@ -353,21 +420,21 @@ func buildBody(kids []*Node, env map[int]Val) []stmt {
 }
 
 // Build turns a program into a component using the real runtime.
-func Build(n *Node, env map[int]Val) templ.Component {
+func Build(n *Node, env Env, path []int) templ.Component {
 	switch n.K {
 	case "templ":
-		return handTempl(n.Guard, buildBody(n.Kids, env))
+		return handTempl(n.Guard, buildBody(n.Kids, env, path))
 	case "join":
 		var cs []templ.Component
 		for _, k := range n.Kids {
-			cs = append(cs, Build(k, env))
+			cs = append(cs, Build(k, env, path))
 		}
 		return templ.Join(cs...)
 	case "flush":
 		if len(n.Kids) == 0 {
 			return templ.Flush()
 		}
-		block := handTempl(false, buildBody(n.Kids, env))
+		block := handTempl(false, buildBody(n.Kids, env, path))
 		return templ.ComponentFunc(func(ctx context.Context, w io.Writer) error {
 			if err := templ.Flush().Render(templ.WithChildren(ctx, block), w); err != nil {
 				return err
@@ -402,8 +469,8 @@ func Build(n *Node, env map[int]Val) templ.Component {
 	case "nop":
 		return templ.NopComponent
 	}
-	// lit / expr outside a template body: wrap in a block closure
-	return handTempl(false, buildBody([]*Node{n}, env))
+	// a statement outside a template body: wrap in a block closure
+	return handTempl(false, buildBody([]*Node{n}, env, path))
 }
 
 // Probes is the table of compiled probe templates (filled by the runner's main package).
@@ -419,11 +486,11 @@ func Exec(j *Job, probes Probes) (o Obs) {
 		}
 		v := V{env: j.Env, comps: map[int]templ.Component{}, once: map[int]*templ.OnceHandle{}}
 		for i, n := range j.Comps {
-			v.comps[i] = Build(n, j.Env)
+			v.comps[i] = Build(n, j.Env, nil)
 		}
 		comp = f(v)
 	} else {
-		comp = Build(j.Prog, j.Env)
+		comp = Build(j.Prog, j.Env, nil)
 	}
 	ctx := context.Background()
 	switch j.Cancel {
